@@ -1,14 +1,14 @@
 """C03 / C01 helper — squfof.rs inside the model (helper module: wired into props/c03.py by its owner).
 
 Ops (harness/src/ops_squfof.rs, lean/Ymq/Drv/Squfof.lean):
-  squfof <n>        -> none | some <a> <b> | panic          K (model = lean/Ymq/Model/Squfof.lean) and O
+  squfof <n>        -> none | some <a> <b>  (panic = crash)   K (model = lean/Ymq/Model/Squfof.lean) and O
   squfof_seed <n>   -> (n as f64).sqrt() as u64             K (Lean Float) and O (within 1 of the floor root = hypothesis SeedOK)
 
 Usage from props/c03.py:
     from props import c03_squfof as sq
     LEAN += sq.LEAN; THEOREMS += sq.THEOREMS (audit: sq.AUDIT); MODELLED += sq.MODELLED; ...
     cases():    yield from sq.cases(tier, rng)
-    oracle():   if case.op in sq.OPS: return sq.oracle(case, ans)          (same for klass / nontrivial / finding_key)
+    oracle():   if case.op in sq.OPS: return sq.oracle(case, ans)          (same for klass / nontrivial)
 """
 import math
 import random
@@ -22,17 +22,14 @@ THEOREMS = [
     "Ymq.C03Squfof.isqrt_total",
     "Ymq.C03Squfof.squfof_seed_irrelevant",
     "Ymq.C03Squfof.squfof_sound",
+    "Ymq.C03Squfof.squfof_no_panic",
+    "Ymq.C03Squfof.attempt_no_panic",
+    "Ymq.C03Squfof.attempt_skips_square",
     "Ymq.C03Squfof.squfof_exit",
-    "Ymq.C03Squfof.squfof_uses_exit",
     "Ymq.C03Squfof.squfof_proper",
-    "Ymq.C03Squfof.attempt_panic_iff",
-    "Ymq.C03Squfof.squfof_panic_iff",
-    "Ymq.C03Squfof.squfof_no_panic_partial",
-    "Ymq.C03Squfof.squfof_no_panic_reachable",
-    "Ymq.C03Squfof.squfof_panics_on_2",
-    "Ymq.C03Squfof.squfof_panics_on_small_primes",
-    "Ymq.C03Squfof.squfof_panics_on_50",
-    "Ymq.C03Squfof.squfof_panics_on_6000163058",
+    "Ymq.C03Squfof.squfof_trivial_split_small_primes",
+    "Ymq.C03Squfof.squfof_uses_exit",
+    "Ymq.C03Squfof.sqOracle_uses_exit",
 ]
 HYPOTHESES = ["SeedOK seed: the f64 seed `(m as f64).sqrt() as u64` of squfof::isqrt is within 1 of the floor square root for 4 <= m < 2^64 "
               "(IEEE-754 fact, not provable without a float model; checked by the `squfof_seed` O stream on squares, squares +- 1, 2^k +- 1, random)"]
@@ -40,19 +37,22 @@ MODELLED = ["squfof.rs completely (squfof, maybe_square, isqrt): every overflow 
             "Ymq/Model/Squfof.lean (list with line numbers in the file header); n.checked_mul(k) is the `break` it is; `nsqrt * nsqrt == n` compares with n as the code does"]
 UNMODELLED = ["the f64 seed of isqrt is a parameter (hypothesis SeedOK; the driver hands the model the same float computation, K-compared by `squfof_seed`)",
               "num_integer::Integer::gcd (binary gcd on u64, library code) is Nat.gcd"]
-RULE = ("squfof directly on u64: exhaustive n < 2^16 (quick: n < 2^13 and every 7th above), semiprimes of every size split up to 64 bits, products of 2-4 primes >= 211 "
+RULE = ("squfof directly on u64: first the repaired-defect regression lines (n*k a perfect square, k >= 2) and the late-round seeds; exhaustive n < 2^16 (quick: n < 2^13 and every 7th above), semiprimes of every size split up to 64 bits, products of 2-4 primes >= 211 "
         "(what factor() hands over), squares, n with n*k a perfect square for every k <= 50, n next to 2^64/k for every k <= 50 (checked_mul boundary), primes of every "
         "size, p^3, p^2*q, numbers just below 2^64, random words of every length; K on every case, both profiles")
-FINDING_KEY = "squfof-direct-division-by-zero"
 
 W = 1 << 64
 # prime cubes that succeed only in a late round (found with the model's trace): 137^3 k=44, 151^3 k=48, 173^3 k=49, 163^3 k=50
 # (a loop bound 1..=49 instead of 1..=50 changes only the last one; odd semiprimes never got beyond round 23 in 300k trials)
 LATE = [2571353, 3442951, 5177717, 4330747]
-# every n < 2^16 on which the unchanged code panics (recorded observation, = the model's answers): a panic on any other
-# n < 2^16 is a NEW failure even when n is in the excluded set of squfof_no_panic_partial
-KNOWN_SMALL_PANICS = {2, 3, 5, 7, 11, 13, 17, 19, 23, 29, 31, 37, 41, 43, 47, 50, 242, 1058, 1682, 4232, 5043, 6845, 13467, 14283,
-                      15842, 18818, 21218, 30603, 32258, 35912, 37538, 39762, 57122}
+# REPAIRED DEFECT (fix f24afb6 in /repo): these direct calls divided by zero (squfof.rs:33, both profiles) because n*k is a perfect
+# square for a multiplier k >= 2; the round is skipped now. Regression lines, run first: every prime <= 47, 2*m^2 shapes, all
+# n < 2^16 that panicked, the 33-bit and 63-bit witnesses.
+REPAIRED = [2, 3, 5, 7, 11, 13, 17, 19, 23, 29, 31, 37, 41, 43, 47, 50, 242, 1058, 1682, 4232, 5043, 6845, 13467, 14283,
+            15842, 18818, 21218, 30603, 32258, 35912, 37538, 39762, 57122, 6000163058, 9223371873646019282]
+# after the repair the primes <= 47 get the trivial split (p, 1) (a round k > p finds p_prev divisible by p; the code guards
+# f > 1 only): theorem squfof_trivial_split_small_primes; squfof_proper excludes exactly these
+TRIVIAL_SPLIT = {2, 3, 5, 7, 11, 13, 17, 19, 23, 29, 31, 37, 41, 43, 47}
 SMALL = [p for p in range(2, 200) if all(p % q for q in range(2, p))]
 
 
@@ -66,7 +66,8 @@ def sqfree_part(k):
 
 
 def excluded(n):
-    """the set excluded by squfof_no_panic_partial: some multiplier 2 <= k <= 50 makes n*k < 2^64 a perfect square (n not a square itself, n >= 2)"""
+    """some multiplier 2 <= k <= 50 makes n*k < 2^64 a perfect square (n not a square itself, n >= 2): the inputs that divided by zero
+    before the repair when that round was reached; used for the klass label only"""
     if n < 2 or math.isqrt(n) ** 2 == n:
         return False
     for k in range(2, 51):
@@ -104,8 +105,8 @@ def cases(tier, rng, extended=False):
 
     for n in LATE:
         yield from emit(n, "late-round")
-    for n in sorted(KNOWN_SMALL_PANICS):
-        yield from emit(n, "small")
+    for n in REPAIRED:
+        yield from emit(n, "repaired")
     # 1. exhaustive small n
     for n in range(1 << 16):
         if (not quick) or extended or n < (1 << 13) or n % 7 == 3:
@@ -227,24 +228,13 @@ def oracle(case, ans):
         if a * b != n:
             return f"squfof({n}) = ({a}, {b}): product is {a * b}"
         if n >= 2 and not (1 < a < n and 1 < b < n):
+            if n in TRIVIAL_SPLIT and (a, b) == (n, 1):
+                return None
             return f"squfof({n}) = ({a}, {b}): not a proper split"
         return None
     if ans == "panic":
-        if excluded(n):
-            return (f"squfof({n}) panicked: some n*k (2 <= k <= 50) is a perfect square, division by zero at squfof.rs:33 "
-                    f"(direct call only; factor() removes the primes <= 199 first)")
-        return f"squfof({n}) panicked outside the set excluded by squfof_no_panic_partial"
+        return f"squfof({n}) panicked (squfof_no_panic: no input may)"
     return f"squfof({n}) did not answer: {ans}"
-
-
-def finding_key(case, ans, profile):
-    if case.op == "squfof" and ans == "panic":
-        n = int(case.args[0])
-        if n < (1 << 16):
-            return FINDING_KEY if n in KNOWN_SMALL_PANICS else None
-        if excluded(n) and not reachable(n):
-            return FINDING_KEY
-    return None
 
 
 def _mirror(n):
@@ -258,13 +248,13 @@ def _mirror(n):
             return k, "square"
         iters = 3 * math.isqrt(s)
         pp, qp, q, qs = s, 1, nk - s * s, 0
+        if q == 0:
+            continue
         done = False
         for i in range(1, iters + 1):
             if i == iters:
                 done = True
                 break
-            if q == 0:
-                return k, "div0"
             b = (s + pp) // q
             p = b * q - pp
             qn = qp + b * (pp - p)
@@ -306,6 +296,10 @@ def klass(case, ans):
     n = int(case.args[0])
     tag = case.tag.split("/")[0]
     kind = ans.split(" ")[0]
+    if kind == "some" and ans.endswith(" 1") and n > 1:
+        kind = "trivial"
+    if excluded(n):
+        tag += "+sqmult"
     if n < (1 << 36):
         k, ex = _mirror(n)
         kb = "k=1" if k == 1 else "k=2-5" if k <= 5 else "k=6-50" if k <= 50 else "k>50"
